@@ -31,5 +31,8 @@ echo "== demo WITHOUT patch"; if run_demo; then echo "   passes (expected)"; els
 git apply $d/patch.diff || { echo "patch does not apply"; exit 1; }
 go build ./... || { echo "does not build"; exit 1; }
 echo "== existing suite WITH patch"; go test -vet=off -count=1 -skip '(?i)seed|demo' $(go list ./... | grep -v '/osmpbf$') 2>&1 | grep -v "^ok\|no test files" | head -10; echo "   (suite done; lines above, if any, are failures)"; go test -vet=off -count=1 -run XXX ./osmpbf/ >/dev/null 2>&1 || echo "osmpbf does not compile"
-echo "== demo WITH patch"; if run_demo; then echo "   PASSES (unexpected: change not demonstrated)"; else echo "   fails (expected)"; grep -m3 -E "^\s+\S+_test.go|FAIL|panic" /tmp/sv-demo.$$ | cut -c1-200; fi
+echo "== demo WITH patch"; if run_demo; then
+  # some changes are pure data races: the demonstration only fails under the race detector
+  if go test -race -vet=off -count=1 -run 'Seed|seed|Demo|demo' $demo_pkgs >/tmp/sv-demo.$$ 2>&1; then echo "   PASSES (unexpected: change not demonstrated)"; else echo "   fails (expected) under -race only"; grep -m2 -E "DATA RACE|FAIL" /tmp/sv-demo.$$ | cut -c1-200; fi
+else echo "   fails (expected)"; grep -m3 -E "^\s+\S+_test.go|FAIL|panic" /tmp/sv-demo.$$ | cut -c1-200; fi
 rm -f /tmp/sv-demo.$$
